@@ -48,6 +48,17 @@ def later_stages(text, cfg_mode, big):
                 return "hera %s raised %s" % (" ".join(argv[:-1]), exc)
             if exc == "SystemExit" and "Error" not in err:
                 return "hera %s exited without a diagnostic" % " ".join(argv[:-1])
+            if cfg_mode == "assemble" and not exc:
+                # every word the assembler prints is a 16-bit word
+                import re
+                for ln in out.splitlines():
+                    t = ln.strip()
+                    if not t or t.startswith("[") or t.startswith("//"):
+                        continue
+                    if "*" in t:
+                        continue                    # `<count>*<value>`: a run of equal cells
+                    if re.fullmatch(r"[0-9a-fA-F]+", t) and len(t.lstrip("0")) > 4:
+                        return "hera %s prints the word %s, which does not fit in 16 bits" % (" ".join(argv[:-1]), t)
     return None
 
 
@@ -146,15 +157,27 @@ def correspondence(ctx, model_available=True):
         if bad:
             res["spec_failures"].append({"what": "accepted program, then %s" % bad, "program": text, "mode": mode})
     # a program longer than the address space: labels beyond 65535 cannot be loaded by SETLO/SETHI
-    for long_text in ["BR(far)\n" + "NOP()\n" * 65540 + "LABEL(far)\nHALT()\n"]:
-        cfg = {"mode": "", "allow_interrupts": False, "no_debug_ops": False, "data_start": 0xC001}
+    # ... and programs that fill the address space exactly, or miss by one: the label after the last instruction is
+    # loaded by SET (2 instructions) and called (3 instructions) at the front (seed C07c: a label of value 0x10000
+    # was let through and SET's expansion then raised)
+    longs = ["BR(far)\n" + "NOP()\n" * 65540 + "LABEL(far)\nHALT()\n"]
+    for total in ([65536] if quick else [65534, 65535, 65536, 65537]):
+        longs.append("SET(R1, far)\nCALL(R12, far)\n" + "NOP()\n" * (total - 5) + "LABEL(far)\n")
+    if not quick:
+        longs.append("SETRF(R1, far)\n" + "NOP()\n" * (65536 - 4) + "LABEL(far)\n")
+    for long_text in longs:
+        cfg = {"mode": rng.choice(["", "assemble", "preprocess", "debug"]), "allow_interrupts": False, "no_debug_ops": False,
+               "data_start": 0xC001}
+        cfg["allow_interrupts"] = cfg["mode"] in ("assemble", "preprocess")
         ops, pm = pc.real_parse(long_text, cfg)
         res["cases"] += 1
         res["distribution"]["long_programs"] = res["distribution"].get("long_programs", 0) + 1
         if ops is not None and not pm.get("errors"):
             r = pc.real_check(ops, cfg)
             if "raise" in r:
-                res["spec_failures"].append({"what": "check raised %s on a 65541-instruction program" % r["raise"]})
+                res["spec_failures"].append({"what": "check raised %s on a program of %d lines that fills the address space (mode %r)"
+                                                     % (r["raise"], long_text.count("\n"), cfg["mode"]),
+                                             "program": long_text[:40].replace("\n", " | ") + " ... " + long_text[-20:].replace("\n", " | ")})
             elif not r["errors"]:
                 bad = field_fit({"code": r["code"][:4]})
                 if bad:
